@@ -340,10 +340,17 @@ def strategy(spec):
     @st.composite
     def o(draw):
         m = mesh(draw, junctions=False)  # whole-grid edge spaces need a manifold grid
-        if not m.get("domains") or m["domains"].get("mode") == "all0":
-            m["domains"] = {"mode": "patch", "n": 2, "seed": draw(st.integers(0, 99)), "values": [0, 3, 7, 12]}
-        return {"mesh": m, "swap": draw(st.lists(st.integers(0, 3), min_size=1, max_size=3)), "fam": fam, "op": op, "k": kdraw(draw),
-                "tkind": draw(st.sampled_from(kinds_t)), "dkind": draw(st.sampled_from(kinds_d))}
+        if not m.get("domains") or m["domains"].get("mode") == "all0" or m["domains"].get("n", 1) < 2:
+            m["domains"] = {"mode": "patch", "n": draw(st.integers(2, 3)), "seed": draw(st.integers(0, 99)), "values": [0, 3, 7, 12]}
+        if m["base"] == "tetra" and draw(st.integers(0, 3)) > 0:
+            m["base"] = draw(st.sampled_from(["octa", "icosa", "prism"]))  # meshes with non-adjacent pairs (regular part of the assembly)
+        # mostly one swapped domain out of several (mixed normal multipliers), sometimes all of them
+        swap = draw(st.one_of(st.lists(st.integers(0, 3), min_size=1, max_size=1), st.lists(st.integers(0, 3), min_size=1, max_size=1),
+                              st.lists(st.integers(0, 3), min_size=1, max_size=3)))
+        # continuous spaces are assembled in colour order (element list != identity): prefer them on the trial side
+        dks = kinds_d + [k_ for k_ in kinds_d if k_ == "P1"] * 2
+        return {"mesh": m, "swap": swap, "fam": fam, "op": op, "k": kdraw(draw),
+                "tkind": draw(st.sampled_from(kinds_t)), "dkind": draw(st.sampled_from(dks))}
     return o()
 
 
